@@ -12,6 +12,8 @@ ENGINES = [
   'kind_free_text': 'explicit-state exploration: enumerates pattern ASTs / term sets / pattern strings inside stated bounds, drives the real regex front-end, dfa_builder and lexer loop, and explores the emitted automaton together with a reference automaton (reachable state pairs x all 256 bytes)'},
   {'name': 'E-IN/E-CT', 'path': 'progs/', 'serves_properties': ['C06', 'C07', 'C12', 'C13', 'C14', 'C19'],
   'kind_free_text': 'compiled black-box programs (no guard, no private access) that enumerate a finite configuration x input space completely and check invariants on every execution; built with g++ and clang++'},
+  {'name': 'E-SCHED', 'path': 'progs/c15_sched.cpp', 'serves_properties': ['C15'],
+  'kind_free_text': 'history enumerator (one forked process per call sequence, mprotect-ed parser object, image comparison) and hand-written preemption-bounded scheduler over real threads with scheduling points in the user-supplied seams; ThreadSanitizer build for the free-running side condition'},
 ]
 
 # id -> (technique, level text, level note, design section)
@@ -61,6 +63,9 @@ CHECKS = {
  'C07': ('exhaustive enumeration of inputs as generated constexpr declarations; per-case constant-expression verdict from g++ and clang++ diagnostics; six-way run-time differential',
          'Bounded exhaustive exploration: 4 literal-typed grammars x every input up to length 3-4 (quick) / 4-6 (thorough) x 2 compilers; the constant evaluator doubles as a complete undefined-behaviour oracle for the failure paths.',
          'Results are ints; a context grammar is not included.', '3 C07'),
+ 'C15': ('explicit enumeration of call histories + stateless preemption-bounded schedule exploration (baton-passing scheduler, choice-sequence replay), read-only parser pages, static-data image comparison; ThreadSanitizer as side condition',
+         'Model checking of the real code: all call sequences up to depth 3 (quick) / 4 (thorough) over 11 calls; all schedules with at most 2 preemptions for 10 call pairs on 2 threads.',
+         'Not covered: more than 2 threads under the scheduler, more than 2 preemptions, weak memory orderings.', '3 C15'),
  'C13': ('exhaustive enumeration of contextual/non-contextual functor assignments x context categories x inputs on compiled parsers',
          'Bounded exhaustive exploration of a finite configuration space (16 functor assignments x 6 call forms) crossed with every input up to the bound; every functor call is compared with the reduction sequence of the documented driver.',
          'One grammar shape (list with empty rule and a unit root rule); context types: a move-only struct; black box.', '3 C13'),
